@@ -110,4 +110,15 @@ CHECKS = {
         "assumptions": COMMON_ASSUME + ["deadline expiry is injected by the scripted connection (only honoured if a non-zero deadline is armed); 15 s / 10 s constants are not waited for",
                                          "unbounded liveness is out of reach; bounded liveness under the owned schedule is checked"],
     },
+    "C20": {
+        "quick": 600, "thorough": 30000,
+        "rule": "rapid draws a history of 1..6 connections (some refused at admission by the secret provider) with up to 6 operations each, "
+                "interleaved round-robin: complete a session, start a session whose handler registers a continuation, continue and "
+                "finish it, first packet with an even number, replay of a used number, key-mismatch body, EOF mid-packet, EOF; "
+                "whatever is still open is shut down by cancellation with read deadlines expiring. Oracle: the four in-flight gauges "
+                "(serve_accepted, handle_handlers, sessions_active, waitgroup_handle_routines_active) read from the default prometheus "
+                "registry are never below their pre-case value at any quiescent point and equal it after Serve has returned. "
+                "Non-trivial: >=1 abandoned or rejected session/connection.",
+        "assumptions": COMMON_ASSUME + ["cases run sequentially in one process, so the pre-case reading is the resting value"],
+    },
 }
